@@ -35,6 +35,25 @@ def run_world_with(engine: str, scenario: dict, chooser: Chooser) -> Any:
     return w
 
 
+# mc.explore keeps at most 2000 violation records per run (400 per scenario) and drops the rest, so a
+# frequent violation would crowd out a rare one and the set of reported keys would depend on scheduling
+# of the pool.  Each worker process therefore reports a given (clause, key) at most KEEP times; a
+# replay runs in a fresh process and always reports.
+KEEP = 2
+_REPORTED: dict = {}
+
+
+def _thin(viol: List[dict]) -> List[dict]:
+    out = []
+    for v in viol:
+        k = (v["clause"], v["key"])
+        n = _REPORTED.get(k, 0)
+        if n < KEEP:
+            _REPORTED[k] = n + 1
+            out.append(v)
+    return out
+
+
 def case_execute(build: Callable[[Any, Callable[[int, str], int]], tuple],
                  oracle: Callable[[Any, Any, Any], List[dict]],
                  observe: Optional[Callable[[Any, Any, Any], Any]] = None,
@@ -48,7 +67,7 @@ def case_execute(build: Callable[[Any, Callable[[int, str], int]], tuple],
         engine, scenario, case = build(params, pick)
         n_data = len(chooser.trace)
         w = run_world_with(engine, scenario, chooser)
-        viol = generic_violations(w) + oracle(w, params, case)
+        viol = _thin(generic_violations(w) + oracle(w, params, case))
         obs = observe(w, params, case) if observe is not None else default_observation(w)
         choices = chooser.choices
         if os.environ.get("MC_VERBOSE"):
